@@ -2374,6 +2374,20 @@ func init() {
 				}
 				return p
 			}
+			if id == "C06" && (seed^(seed>>19))%16 == 0 {
+				// requests towards backends while the rotation changes by name resolution, pinned dialogs whose backend
+				// has been withdrawn among them: one fresh Via of the listen entry each (the membership world, C06's rule)
+				p := genMembershipPlan(seed, tier)
+				p.Variant = "membership"
+				return p
+			}
+			if id == "C07" && (seed^(seed>>19))%16 == 1 {
+				// TCP clients from one address, requests sent again over new connections, answers late and reordered:
+				// every answer travels back to the connection its request really came from (the affinity world of C12)
+				p := genAffinityPlan(seed, tier)
+				p.Variant = "affinity"
+				return p
+			}
 			p := genRelayPlan(seed, tier, id)
 			if id == "C01" && (seed^(seed>>13))%4 == 0 && p.Variant == "" {
 				// what is relayed for messages of dialogs that are bound to a backend (the proxy looks into more of their
@@ -2392,6 +2406,9 @@ func init() {
 		}, func(t *testing.T, p *Plan) *Result {
 			if p.Variant == "dialog-foreign-ruri" || p.Variant == "membership" {
 				return execSticky(t, p)
+			}
+			if p.Variant == "affinity" {
+				return execAffinity(t, p)
 			}
 			return execRelay(t, p)
 		})
